@@ -18,6 +18,7 @@
 #include "oomd/PluginConstructionContext.h"
 #include "oomd/include/CgroupPath.h"
 #include "oomd/OomdContext.h"
+#include "oomd/engine/PrekillHook.h"
 #include "oomd/util/PluginArgParser.h"
 
 using Oomd::CgroupPath;
@@ -43,7 +44,7 @@ int main(int argc, char** argv) {
   verif::installAbortHandlers();
   std::ifstream in(argv[1]);
   std::string line;
-  long n = 0, nU = 0, nH = 0, nG = 0, dotEntries = 0;
+  long n = 0, nU = 0, nH = 0, nG = 0, dotEntries = 0, nHookObj = 0;
   std::string dotExample;
   std::vector<std::string> bad;
   std::map<std::string, std::unique_ptr<verif::SimFs>> trees;
@@ -94,6 +95,28 @@ int main(int argc, char** argv) {
       if (ch.isRoot() != c["childRoot"].asBool()) fail("getChild isRoot", line);
       if (!(ch == joined) || std::hash<CgroupPath>{}(ch) != std::hash<CgroupPath>{}(joined)) fail("getChild equals the joined path", line);
       if (!ch.isRoot() && !joined.isRoot() && !(ch.getParent() == joined.getParent())) fail("getChild parent", line);
+      // the USER of the prefix match: a prekill hook configured with the pattern t decides through
+      // PrekillHook::canRunOnCgroup whether it runs for the (existing) cgroup s
+      {
+        static verif::SimFs hookFs;
+        static Oomd::OomdContext hookCtx;
+        struct ProbeHook : Oomd::Engine::PrekillHook {
+          std::unique_ptr<Oomd::Engine::PrekillHookInvocation> fire(const Oomd::CgroupContext&, const Oomd::ActionContext&) override { return nullptr; }
+        };
+        CgroupPath hp(hookFs.root(), str(c["s"]));
+        bool plain = !str(c["t"]).empty();
+        std::string rel;
+        for (auto& part : hp.relativePathParts()) { if (part == "." || part == "..") plain = false; rel += (rel.empty() ? "" : "/") + part; }
+        if (plain) {
+          if (!rel.empty()) hookFs.mkcg(rel);
+          auto cg = Oomd::CgroupContext::make(hookCtx, hp);
+          ProbeHook h;
+          if (cg && h.initPlugin({{"cgroup", str(c["t"])}}, Oomd::PluginConstructionContext(hookFs.root())) == 0) {
+            nHookObj++;
+            if (h.canRunOnCgroup(*cg) != c["match"].asBool()) fail("PrekillHook::canRunOnCgroup", line);
+          }
+        }
+      }
     } else if (kind == "G") {
       nG++;
       Json::StreamWriterBuilder wb; wb["indentation"] = "";
@@ -168,7 +191,7 @@ int main(int argc, char** argv) {
   size_t nb = bad.size();
   std::vector<std::string> shown;
   for (auto& b : bad) if (!b.empty()) shown.push_back(b);
-  out << verif::J().num("cases", n).num("unary", nU).num("hook", nH).num("glob", nG).num("mismatches", (long long)nb).num("glob_dot_entries", dotEntries).raw("glob_dot_example", dotExample.empty() ? "null" : dotExample)
+  out << verif::J().num("cases", n).num("unary", nU).num("hook", nH).num("hook_objects", nHookObj).num("glob", nG).num("mismatches", (long long)nb).num("glob_dot_entries", dotEntries).raw("glob_dot_example", dotExample.empty() ? "null" : dotExample)
              .raw("examples", verif::J::arr(shown)).done()
       << "\n";
   out.close();
